@@ -82,14 +82,17 @@ pub enum RKind {
 	Buf,
 	/// `Reader::from_reader` over a `BufRead` that hands out 5 bytes at a time
 	Chunked,
+	/// `Reader::from_reader(BufReader::with_capacity(16, Cursor<Vec<u8>>))`
+	Small,
 }
 impl RKind {
-	pub const ALL: [RKind; 3] = [RKind::Slice, RKind::Buf, RKind::Chunked];
+	pub const ALL: [RKind; 4] = [RKind::Slice, RKind::Buf, RKind::Chunked, RKind::Small];
 	pub fn letter(self) -> char {
 		match self {
 			RKind::Slice => 'l',
 			RKind::Buf => 'u',
 			RKind::Chunked => 'k',
+			RKind::Small => 'm',
 		}
 	}
 	pub fn from_letter(c: char) -> Option<RKind> {
@@ -111,6 +114,10 @@ pub enum Op {
 	ParseS(u8),
 	/// SchemaMut::from_nodes(bad graph g).freeze(): the error path of freeze, nothing is kept
 	FreezeBad(u8),
+	/// from_datum_reader::<_, Gathered>(reader, &GATHER_TEXT.parse::<Schema>()) over a reader that hands out
+	/// a few bytes at a time (0: 5-byte chunks, 1: BufReader::with_capacity(16, ..)): three gathered reads of
+	/// 100 / 150 / 250 bytes on one `ReaderRead`; nothing is kept
+	Gather(u8),
 	DropM,
 	/// move the owned Schema: 0 = out of its Box into a Vec that then reallocates, and back into a new
 	/// Box; 1 = through a channel to another thread (which uses it) and back
@@ -158,6 +165,7 @@ impl Op {
 			Op::Freeze => "Fz".into(),
 			Op::ParseS(i) => format!("Ps{i}"),
 			Op::FreezeBad(g) => format!("Fb{g}"),
+			Op::Gather(k) => format!("Ga{k}"),
 			Op::DropM => "Xm".into(),
 			Op::MoveS(k) => format!("Mv{k}"),
 			Op::DropS(w) => format!("Xs{w}"),
@@ -192,6 +200,7 @@ impl Op {
 			"Fz" => only(0).map(|_| Op::Freeze)?,
 			"Ps" => Op::ParseS(if rest.is_empty() { 0 } else { num(0).filter(|i| *i < fixtures::N_TEXTS)? }),
 			"Fb" => Op::FreezeBad(num(0).filter(|g| (*g as usize) < fixtures::N_BAD)?),
+			"Ga" => Op::Gather(num(0).filter(|k| *k < 2)?),
 			"Xm" => only(0).map(|_| Op::DropM)?,
 			"Mv" => Op::MoveS(num(0).filter(|k| *k < 2)?),
 			"Xs" => Op::DropS(num(0).filter(|k| *k < 2)?),
@@ -242,6 +251,10 @@ impl Op {
 			Op::Freeze => "schema = m.freeze()".into(),
 			Op::ParseS(i) => format!("schema = {:?}.parse::<Schema>()", fixtures::text(i)),
 			Op::FreezeBad(g) => format!("SchemaMut::from_nodes({}).freeze()", fixtures::describe_bad(g as usize)),
+			Op::Gather(k) => format!(
+				"from_datum_reader::<_, G>({}, &record G{{a,b,c: string}}) on strings of 100 / 150 / 250 bytes",
+				if k == 0 { "BufRead handing out 5 bytes at a time" } else { "BufReader::with_capacity(16, Cursor)" }
+			),
 			Op::DropM => "drop(m)".into(),
 			Op::MoveS(0) => "move schema into a Vec that reallocates, pop it, re-box it".into(),
 			Op::MoveS(_) => "send schema through a channel to another thread (which Debug-formats it) and back".into(),
@@ -257,8 +270,17 @@ impl Op {
 			Op::De(s, t) => format!("v = from_datum_slice::<{t:?}>(datum, &{})", src(s)),
 			Op::Dbg(s) => format!("format!(\"{{:?}}\", {})", src(s)),
 			Op::DropV(i) => format!("drop(v{i})"),
-			Op::Open(RKind::Slice, c, f) => format!("reader = Reader::from_slice({c:?} file{})", if f == 0 { "" } else { " with 4 blocks of 100/8/150/250-byte strings" }),
-			Op::Open(k, c, f) => format!("reader = Reader::from_reader({k:?} over {c:?} file{})", if f == 0 { "" } else { " with 4 blocks of 100/8/150/250-byte strings" }),
+			Op::Open(k, c, f) => {
+				let file = match f {
+					0 => String::new(),
+					_ => format!(" with 4 one-record blocks of {:?}-byte strings", fixtures::file_lens(f)),
+				};
+				if k == RKind::Slice {
+					format!("reader = Reader::from_slice({c:?} file{file})")
+				} else {
+					format!("reader = Reader::from_reader({k:?} over {c:?} file{file})")
+				}
+			}
 			Op::Next(t) if t.borrowing() => format!("v = reader.deserialize_next_borrowed::<{t:?}>()"),
 			Op::Next(t) => format!("v = reader.deserialize_next::<{t:?}>()"),
 			Op::RSchema => "<free arc slot> = reader.schema().clone()".into(),
@@ -291,6 +313,11 @@ pub struct Profile {
 	pub opens: Vec<(RKind, Codec)>,
 	/// (reader kind, codec) pairs offered to Open with the "sized" file (file 1)
 	pub opens_sized: Vec<(RKind, Codec)>,
+	/// (reader kind, codec) pairs offered to Open with file 2 (strings that make a gathering
+	/// `ReaderRead` grow its scratch buffer after an amortised growth)
+	pub opens_gather: Vec<(RKind, Codec)>,
+	/// variants offered to Gather
+	pub gathers: Vec<u8>,
 	/// schema texts offered to Parse / ParseS
 	pub texts: Vec<u8>,
 	/// graphs offered to Build
@@ -325,6 +352,8 @@ impl Profile {
 			depth: 4,
 			opens: product(&[RKind::Slice, RKind::Buf], &Codec::PURE),
 			opens_sized: vec![(RKind::Slice, Codec::Snappy), (RKind::Buf, Codec::Snappy), (RKind::Buf, Codec::Deflate)],
+			opens_gather: vec![(RKind::Chunked, Codec::Null), (RKind::Small, Codec::Null)],
+			gathers: vec![0],
 			texts: vec![0, 2],
 			builds: vec![0, 1],
 			// key = len at every position for the array kind; the other kinds at the last (and the union
@@ -353,6 +382,9 @@ impl Profile {
 				v.extend([(RKind::Buf, Codec::Snappy), (RKind::Buf, Codec::Zstd), (RKind::Chunked, Codec::Snappy)]);
 				v
 			},
+			opens_gather: vec![(RKind::Chunked, Codec::Null), (RKind::Small, Codec::Null), (RKind::Chunked, Codec::Deflate), (RKind::Small, Codec::Snappy)],
+			// (variant 0 is in `wide`)
+			gathers: vec![1],
 			texts: (0..fixtures::N_TEXTS).collect(),
 			builds: (0..fixtures::N_BUILDS).collect(),
 			// every kind x key class at the last position, every position for the union kind with key =
@@ -390,6 +422,8 @@ impl Profile {
 			opens: vec![(RKind::Slice, Codec::Null), (RKind::Slice, Codec::Snappy), (RKind::Buf, Codec::Deflate)],
 			// (the sized files are read to the end in `extras`)
 			opens_sized: vec![],
+			opens_gather: vec![],
+			gathers: vec![],
 			texts: vec![0],
 			builds: vec![0],
 			// (every bad graph is in `extras`; one stays in the product alphabet: unreachable union, key = len)
@@ -410,6 +444,8 @@ impl Profile {
 			depth: 4,
 			opens: vec![(RKind::Slice, Codec::Snappy), (RKind::Buf, Codec::Null)],
 			opens_sized: vec![],
+			opens_gather: vec![],
+			gathers: vec![],
 			texts: vec![0],
 			builds: vec![0],
 			bad_graphs: vec![],
@@ -431,6 +467,9 @@ impl Profile {
 		p.builds = vec![0];
 		// depth 5 reaches the fourth block of the sized files
 		p.opens_sized = vec![(RKind::Slice, Codec::Snappy), (RKind::Buf, Codec::Snappy)];
+		// ... and of file 2
+		p.opens_gather = vec![(RKind::Chunked, Codec::Null)];
+		p.gathers = vec![];
 		p.bad_graphs = vec![fixtures::bad_index('A', 1, 0), fixtures::bad_index('U', fixtures::N_GOOD, 0), fixtures::BAD_EMPTY as u8, fixtures::BAD_EMPTY as u8 + 1];
 		p
 	}
@@ -506,6 +545,19 @@ impl Profile {
 		}
 		out.push(vec![Op::Open(RKind::Slice, Codec::Snappy, 1), Op::Next(Tgt::Any), Op::Next(Tgt::Owned), Op::DropV(0), Op::Next(Tgt::Any), Op::DropR(1), Op::DropV(1)]);
 		out.push(vec![Op::Open(RKind::Slice, Codec::Snappy, 1), Op::Next(Tgt::Owned), Op::Next(Tgt::Owned), Op::MoveR, Op::Next(Tgt::Owned), Op::RSchema, Op::Next(Tgt::Owned), Op::DropR(0), Op::Dbg(Src::A)]);
+		// a `ReaderRead` that has to gather its values (the user's BufRead hands out a few bytes at a time):
+		// files 1 and 2 through the null codec read to the end (4 values, EOF, drop; the values are re-read
+		// after the reader is gone), and the datum-level fixture, alone and around a live schema
+		let o = Tgt::Owned;
+		for k in [RKind::Chunked, RKind::Small] {
+			out.push(vec![Op::Open(k, Codec::Null, 2), Op::Next(o), Op::Next(o), Op::Next(o), Op::Next(o), Op::Next(o), Op::DropR(0)]);
+		}
+		out.push(vec![Op::Open(RKind::Chunked, Codec::Null, 1), Op::Next(o), Op::Next(o), Op::Next(o), Op::Next(o), Op::Next(o), Op::DropR(0)]);
+		out.push(vec![Op::Open(RKind::Chunked, Codec::Null, 2), Op::Next(o), Op::MoveR, Op::Next(o), Op::DropV(0), Op::Next(o), Op::Next(o), Op::DropR(1)]);
+		for k in 0..2 {
+			out.push(vec![Op::Gather(k)]);
+		}
+		out.push(vec![Op::ParseS(0), Op::Gather(0), Op::Ser(Src::S), Op::Gather(1), Op::DropS(0)]);
 		debug_assert!(out.iter().all(|h| admissible(h).is_some()));
 		out
 	}
@@ -553,7 +605,7 @@ impl Abs {
 			Op::Edit(_) | Op::DropM => self.m.is_some(),
 			Op::Freeze => self.m.is_some() && !self.s,
 			Op::ParseS(_) => !self.s,
-			Op::FreezeBad(_) => true,
+			Op::FreezeBad(_) | Op::Gather(_) => true,
 			Op::MoveS(_) | Op::DropS(_) => self.s && !self.borrowed(Src::S),
 			Op::ArcNew => self.s && !self.borrowed(Src::S) && !self.arc[0],
 			Op::ArcClone(from) => from != Src::S && self.src_live(from) && !(self.arc[0] && self.arc[1]),
@@ -589,7 +641,7 @@ impl Abs {
 				self.m = None;
 			}
 			Op::ParseS(_) => self.s = true,
-			Op::FreezeBad(_) => {}
+			Op::FreezeBad(_) | Op::Gather(_) => {}
 			Op::DropM => self.m = None,
 			Op::MoveS(_) => {}
 			Op::DropS(_) => self.s = false,
@@ -648,6 +700,8 @@ impl Abs {
 		all.push(Op::DropV(1));
 		all.extend(p.opens.iter().map(|(k, c)| Op::Open(*k, *c, 0)));
 		all.extend(p.opens_sized.iter().map(|(k, c)| Op::Open(*k, *c, 1)));
+		all.extend(p.opens_gather.iter().map(|(k, c)| Op::Open(*k, *c, 2)));
+		all.extend(p.gathers.iter().map(|k| Op::Gather(*k)));
 		all.extend(p.next_targets.iter().map(|t| Op::Next(*t)));
 		all.push(Op::RSchema);
 		all.push(Op::MoveR);
@@ -762,7 +816,7 @@ pub fn cone(h: &[Op], idx: usize) -> Vec<Op> {
 				l.s = vec![i];
 				d = l.s.clone();
 			}
-			Op::FreezeBad(_) => d = vec![i],
+			Op::FreezeBad(_) | Op::Gather(_) => d = vec![i],
 			Op::DropM => l.m.clear(),
 			Op::MoveS(_) => {
 				l.s.push(i);
@@ -888,7 +942,7 @@ pub fn has_result(op: Op) -> bool {
 /// serialise, deserialise, Debug, reader open / next) AND contains at least one lifecycle event that
 /// the tests never order differently (drop, move, Arc clone, edit, error-path freeze).
 pub fn nontrivial(h: &[Op]) -> bool {
-	let uses = h.iter().any(|o| matches!(o, Op::Freeze | Op::ParseS(_) | Op::FreezeBad(_) | Op::SerC(_) | Op::Ser(_) | Op::De(..) | Op::Dbg(_) | Op::Open(..) | Op::Next(_)));
+	let uses = h.iter().any(|o| matches!(o, Op::Freeze | Op::ParseS(_) | Op::FreezeBad(_) | Op::Gather(_) | Op::SerC(_) | Op::Ser(_) | Op::De(..) | Op::Dbg(_) | Op::Open(..) | Op::Next(_)));
 	let life = h.iter().any(|o| {
 		matches!(
 			o,
